@@ -48,7 +48,7 @@ REQUIRED = ["ops_executed", "rechecks", "handle_reads", "node_writes", "detach_n
             "tree_segments_checked", "adjacency_checked", "pid_writes",
             "worlds_with_other_column_dtypes", "relatives_checked", "mixed_owner_containers",
             "views_built_by_caller", "views_built_from_a_range", "pid_writes_on_tree_copies",
-            "long_views_over_unordered_rows"]
+            "long_views_over_unordered_rows", "views_walked_while_editing"]
 FLOOR = {"quick": 250, "thorough": 5000}
 SHARDS = {"quick": 8, "thorough": 16}
 
@@ -226,7 +226,7 @@ def _run_history(ctx, case):
     ops = ["node", "node", "write", "write", "write", "index", "slice", "col", "relatives",
            "path", "branch", "comp", "tree_segments", "adjacency", "detach_node", "detach_path",
            "detach_branch", "detach_comp", "copy", "write_free", "write_free", "reparent",
-           "mixed_segments"]
+           "mixed_segments", "walk_and_write"]
     if case.get("long_view") and n >= 40:
         # a long view (32 nodes and more) over rows that are not stored in path order
         for _ in range(3):
@@ -381,6 +381,34 @@ def _run_history(ctx, case):
                           "branch-segments", "Compartments accessors of a branch differ")
                     j = int(rng.integers(0, len(segs)))
                     add_handle("compartment", segs[j], [L[j], L[j + 1]])
+        elif op == "walk_and_write":
+            # a view is walked (or an iterator over it is left open) while the tree is edited
+            # through node handles: the view stays a window, also in the middle of the walk
+            held = [(kind, o, L) for kind, o, L in W.handles if kind in ("path", "branch")]
+            if not held:
+                continue
+            kind, obj, L = held[int(rng.integers(0, len(held)))]
+            ctx.count("views_walked_while_editing")
+            keep_open = iter(obj)
+            next(keep_open)
+            for pos, nd in enumerate(obj):
+                j = L[int(rng.integers(0, len(L)))]
+                k = str(rng.choice(FCOLS))
+                v = float(np.float32(rng.normal(0, 50)))
+                setattr(t.node(j), k, v)
+                W.cols[k][j] = v
+                wrote += 1
+                ctx.count("node_writes")
+                _need(_eq(obj.get_ndata(k), W.cols[k][list(L)]) and
+                      _eq(getattr(obj[-1], k), W.cols[k][L[-1]]) and
+                      _eq(getattr(nd, k), W.cols[k][L[pos]]), "view-stale-during-walk",
+                      f"{kind} over {list(L)[:8]}: while walking it (step {pos}), node({j}).{k} = {v!r} "
+                      f"was assigned through the tree; the view still reports "
+                      f"{np.asarray(obj.get_ndata(k)).tolist()[:6]}")
+                if pos >= 3:
+                    break
+            W.view_check(kind, obj, L)
+            W._open_iterators = getattr(W, "_open_iterators", []) + [keep_open]
         elif op in ("comp", "tree_segments"):
             segs = t.get_segments() if rng.random() < .5 else t.get_compartments()
             ctx.count("tree_segments_checked")
